@@ -45,7 +45,7 @@ def run(ctx):
             kind = "advisory" if all(p.startswith("corruption-advisories") for p in t["diff"]) else ("incoming" if all("incoming" in p for p in t["diff"]) else "share")
             ctx.report("tree:differs:%s" % kind, "the storage directories of the HTTP server and of the directly driven twin differ after the same history: %s" % t["diff"],
                        replay={"kind": "twin-tree-diff", "diff": t["diff"], "trace": tr})
-    ctx.sample({"events": [{k: v for k, v in e.items() if k not in ("obs", "obsall", "dobsall")} | ({"d": e["d"]["res"]} if "d" in e else {})
+    ctx.sample({"events": [{k: v for k, v in e.items() if k not in ("obs", "obsall", "dobsall")} | ({"d": e["d"]["res"]} if isinstance(e.get("d"), dict) and "res" in e["d"] else {})
                            for e in traces[0]["events"][:6]]}, limit=2)
     ctx.notes.append("%d twin histories, %d operations executed on both paths, %d storage directory pairs compared byte by byte" % (len(traces), nops, len(traces)))
     hf.validate(ctx, "C31", traces, "HTTP path / direct path")
